@@ -285,6 +285,13 @@ def apply_model(sym, n, f, vals, mut_idx, st):
     if p == "std::cmp::Ordering::is_eq":
         return V(("eq", vals[0], ("adt", "Ordering", "Equal", ())))
 
+    # ---- `(a..=b).start()` / `.end()` are a and b ---------------------------------------------------------------------------------
+    if last in ("start", "end") and len(vals) == 1 and re.match(r"^std::ops::RangeInclusive(::<[^>]*>)?::(start|end)$", p):
+        r_ = vals[0]
+        if r_[0] == "call" and r_[1].endswith("::new") and "RangeInclusive" in r_[1] and len(r_[2]) == 2:
+            return V(r_[2][0] if last == "start" else r_[2][1])
+        if r_[0] == "adt" and r_[1] == "RangeInclusive" and dict(r_[3]).get(last) is not None:
+            return V(dict(r_[3])[last])
     # ---- ranges: (a..=b).contains(&x) / (a..b).contains(&x) are the two comparisons ------------------------------------
     if last == "contains" and len(vals) == 2 and re.match(r"^std::ops::Range(Inclusive)?(::<[^>]*>)?::contains$", p):
         r_, x = vals
